@@ -53,6 +53,7 @@ U('C04', 'C04_value.cpp', defines=dict(DIM=1, NB=3, ELT='int', SLOT_CELLS=3), un
 U('C04', 'C04_value.cpp', defines=dict(DIM=2, NB=2, ELT='int', SLOT_CELLS=6), unwind=7, timeout=1800, heap=128, slots=2, tier='thorough')
 U('C04', 'C04_value.cpp', defines=dict(DIM=1, NB=2, ELT='Tr', SLOT_CELLS=3), unwind=5, timeout=1800, heap=128, slots=2)
 # D=0: copy/move construction of a 0-D array is ill-formed with assertions enabled (assert(this->stride() != 0) names a deleted function), hence -DNDEBUG
+U('C04', 'C04_value.cpp', name='C04_value_DIM2_quick', defines=dict(DIM=2, NB=2, ELT='int', SLOT_CELLS=6), entries=['copy_construct_k1', 'move_assign_k1', 'assign_from_convertible_k1'], unwind=7, timeout=1800, heap=128, slots=2)   # D=2 (size() != num_elements()) for the core value operations; the full D=2 set is in the thorough tier
 U('C04', 'C04_value.cpp', name='C04_from_view_DIM3', defines=dict(DIM=3, NB=2, VB=4, ELT='int', SLOT_CELLS=8), entries=['construct_from_view_and_decay', 'assign_from_view_k0'], unwind=11, timeout=1800, heap=128, slots=2)   # D=3: views whose dimension order is permuted (compact or not)
 U('C04', 'C04_value.cpp', name='C04_from_view_DIM3_k1', defines=dict(DIM=3, NB=2, VB=4, ELT='int', SLOT_CELLS=8), entries=['assign_from_view_k1'], unwind=11, timeout=3600, heap=128, slots=3, tier='thorough')
 U('C04', 'C04_zero.cpp', defines=dict(SLOT_CELLS=1, NDEBUG=1), unwind=5, timeout=600, heap=128)
